@@ -74,7 +74,9 @@ func (x *Exec) mainGor() *gor {
 
 func (x *Exec) spawn(fv FuncV, args []Val, site string) {
 	if x.opts.Sched == "" {
-		panic(unsupported{"go statement at " + site + " (harness has no scheduling mode)"})
+		// a run that names no scheduling mode gets the adversarial-join discipline as soon as the
+		// code under test starts a goroutine (on the unchanged tree such runs start none)
+		x.opts.Sched = "join"
 	}
 	x.mainGor()
 	me := x.cur
@@ -83,8 +85,14 @@ func (x *Exec) spawn(fv FuncV, args []Val, site string) {
 	g.vc[g.id] = 1
 	me.vc[me.id]++
 	x.gors = append(x.gors, g)
-	if len(x.gors) > 8 && x.opts.Sched != "seq" {
-		panic(unsupported{"more than 8 goroutines"})
+	live := 0
+	for _, o := range x.gors {
+		if !o.done {
+			live++
+		}
+	}
+	if live > 8 && x.opts.Sched != "seq" {
+		panic(unsupported{"more than 8 live goroutines"})
 	}
 	if len(x.gors) > 2000 {
 		panic(unsupported{"more than 2000 goroutines"})
@@ -416,6 +424,13 @@ func (x *Exec) chanRecv(c *ChanV, commaOk bool, t types.Type, site string) Val {
 	if c == nil {
 		x.block(func() bool { return true }, "receive from nil channel")
 	}
+	if c != nil && c.timer {
+		// a plain receive from a timer channel: the time passes
+		if commaOk {
+			return TupleV{x.zero(t.(*types.Tuple).At(0).Type()), cbool(true)}
+		}
+		return x.zero(t)
+	}
 	x.block(func() bool { return len(c.buf) == 0 && !c.closed }, "chan receive")
 	var et types.Type
 	if commaOk {
@@ -487,15 +502,58 @@ func (x *Exec) selectStmt(f *frame, in *ssa.Select) Val {
 		}
 		return r
 	}
-	if in.Blocking {
-		x.block(func() bool { return len(ready()) == 0 }, "select")
-	}
-	r := ready()
 	tt := in.Type().(*types.Tuple)
 	res := make(TupleV, tt.Len())
 	for i := 2; i < tt.Len(); i++ {
 		res[i] = x.zero(tt.At(i).Type())
 	}
+	// timer cases: time is adversarial, so a timer may fire now (before anything else becomes
+	// ready) or later than every other case; both are explored
+	var timers []int
+	for i, s := range states {
+		if s.ch != nil && s.ch.timer && !s.send {
+			timers = append(timers, i)
+			states[i].ch = nil // not an ordinary channel case below
+		}
+	}
+	fire := func(k int) Val {
+		busy := false
+		for _, g := range x.gors {
+			if g != x.cur && !g.done {
+				busy = true
+			}
+		}
+		if busy {
+			x.timerFired = true
+		}
+		res[0] = cbv(64, uint64(k))
+		res[1] = cbool(true)
+		return res
+	}
+	if len(timers) > 0 {
+		alts := make([]string, len(timers)+1)
+		for i := range alts {
+			alts[i] = "true"
+		}
+		if c := x.choose(alts, "sched"); c < len(timers) {
+			return fire(timers[c])
+		}
+		// no timer fires before another case is ready; if nothing else can ever become ready, the timer does fire
+		me := x.cur
+		for len(ready()) == 0 {
+			me.waitOn = func() bool { return len(ready()) == 0 }
+			next := x.pick(x.runnable(me))
+			if next == nil {
+				me.waitOn = nil
+				return fire(timers[0])
+			}
+			x.switchTo(next)
+		}
+		me.waitOn = nil
+	} else if in.Blocking {
+		x.block(func() bool { return len(ready()) == 0 }, "select")
+	}
+	r := ready()
 	if len(r) == 0 {
 		res[0], res[1] = cbv(64, ^uint64(0)), cbool(false) // default case: index -1
 		return res
